@@ -47,6 +47,7 @@ impl B {
             sort_rank: vec![],
             favored: None,
             locked: None,
+            lock_gone: false,
             hint: Hint::None,
             unlisted: vec![],
         });
